@@ -2,7 +2,7 @@
 """Regenerates MANIFEST.json from the table below (kept in one place so it stays valid)."""
 import json, subprocess
 
-HOOK_COMMITS = subprocess.run(["git","-C","/repo","log","--format=%H %s","--grep=verif hooks"],capture_output=True,text=True).stdout.strip().splitlines()
+HOOK_COMMITS = subprocess.run(["git","-C","/repo","log","--format=%H %s","--grep=verif hook"],capture_output=True,text=True).stdout.strip().splitlines()
 
 CHECKS = {
  # id: (engine, category, design_ref, technique, text, note)
